@@ -226,6 +226,7 @@ NOT_APPLICABLE = {
 
 # clauses added after the first version of each check (red-team misses, defects found); appended to the texts above
 ADDENDA = {
+    "C34": " Also: the caller's resolvers are handed to every instruction unchanged, or consulted without a short-circuiting adaptor: every placeholder is asked.",
     "C14": " Also: the value returned for a parameterised gate is the table function's result for every angle (no special-cased angle).",
     "C16": " Also: has_signature is an equality of the whole signature (no is_some / len / prefix comparisons of a component).",
     "C28": " Also: exactly JUMP, JUMP-WHEN, JUMP-UNLESS and HALT (and LABEL, which starts the next one) close a block.",
@@ -249,14 +250,14 @@ ADDENDA = {
     "C24": " Also: the per-frame queues are keyed by a type holding the full FrameIdentifier (no order-forgetting set of qubits).",
     "C25": " Also: TimeSpan::union decided path by path (start = min of starts, end = max of ends, justified by the path's comparisons); the calibrated index map and span merge of BasicBlock::as_schedule. Also: the set of scheduled instruction kinds is read from the MIR of DefaultHandler::is_scheduled whatever its shape, and compared kind by kind with the duration table.",
     "C26": " Also: each side of FrameSet::filter is evaluated whenever its condition is present (no Some-discarding adaptor, unconditional evaluation). Also: And / Or evaluate every operand (no take_while / skip / find ... between the operand results and the combination).",
-    "C27": " Also: the CALL table: for (return slot | loop) x (MemoryReference | Identifier) x (reads | writes) the insertion happens under exactly the expected controlling conditions (writes of loop arguments only additionally under `mutable`).",
+    "C27": " Also: the CALL table: for (return slot | loop) x (MemoryReference | Identifier) x (reads | writes) the insertion happens under exactly the expected controlling conditions (writes of loop arguments only additionally under `mutable`). Also: a helper reports a region that is certainly present (a &MemoryReference parameter) the same way on every path; memory references are listed from the expression as written (no simplification or substitution first).",
     "C30": " Also: every declaration lookup in the type checker (18 sites) reports UndefinedMemoryReference when the region is not declared; a number literal is rejected exactly when |imaginary part| is non-zero (sign-symmetric test, error on the non-zero side).",
     "C31": " Also: a MemoryReference or Immediate argument is accepted for ExternParameterType::Scalar only (decision read from the match in the arm or from the Option/Result helper called on data_type). Also: the argument-count comparison uses the plain argument count (no lossy arithmetic) against parameters plus the return slot; a mutable parameter is printed with `mut` on every path, whatever its type.",
     "C33": " Also: MOVE, SUB and JUMP-WHEN address the same memory cell (the caller's reference) and the declared length covers its index (repaired); the early returns are decided on the MIR paths; add_instruction stores a DECLARE by an unconditional insert, so the generated declaration replaces an existing one.",
     "C35": " Also: simplify never reads the unexpanded body; CALL names are collected in the loop over the expanded body; the three pruning steps (frames, waveforms, extern pragmas) run on every path.",
     "C20": " Also: the referenced set is filled under a transitive reachability query; errors are raised only for selected invocations.",
     "C21": " Also: every effect of an iteration (extend / push / entry push) is unconditional within its arm; both Program-level entry points return the program they built.",
-    "C29": " A traversal that prunes paths is reported as undecided, never as a violation.",
+    "C29": " A traversal that prunes paths is reported as undecided, never as a violation. Also: every node without incoming edges starts a walk (the externals iterator is collected unfiltered).",
 }
 
 
